@@ -133,6 +133,18 @@ func discharge(o *Obligation, timeout time.Duration) (r OblResult) {
 		r.Verdict, r.Backend = "proved", "trivial"
 		return r
 	}
+	for _, f := range o.Facts {
+		if f == o.Goal {
+			r.Verdict, r.Backend = "proved", "fact"
+			return r
+		}
+	}
+	if os.Getenv("GOVC_DEBUG2") != "" {
+		fmt.Fprintf(os.Stderr, "GOAL %s\n", o.Goal.str(-3))
+		for _, f := range o.Facts[max(0, len(o.Facts)-6):] {
+			fmt.Fprintf(os.Stderr, "FACT %s\n", f.str(-3))
+		}
+	}
 	if dec, holds, why := groundDecide(o.Goal); dec {
 		r.Backend, r.Info = "ground", why
 		if holds {
@@ -212,7 +224,7 @@ func discharge(o *Obligation, timeout time.Duration) (r OblResult) {
 		} else {
 			r.Verdict = "undecided"
 			r.Info += "solver reported sat but the model is not confirmed (" + why + ")"
-			if m2, how := searchCounterexample(o.Facts, o.Goal, 400, 1); m2 != nil {
+			if m2, how := searchCounterexample(o.Facts, o.Goal, 4000, 1); m2 != nil {
 				r.Verdict, r.Backend, r.Model = "failed", "eval", m2
 				r.Info += " " + how
 			}
